@@ -84,7 +84,8 @@ Definition fresh (x : job) : Prop :=
   /\ time_accepted x = None /\ wp x = []
   /\ (kind x = KApply -> ready x = false)
   /\ (kind x = KMap -> incache x = negb (ready x)
-                       /\ (incache x = true -> 0 <= mlen x -> accepted x = true)).
+                       /\ (incache x = true -> 0 <= mlen x -> accepted x = true)
+                       /\ (mlen x = 0 -> ready x = true)).
 
 Definition env_eq (s s' : pool) : Prop :=
   procs s' = procs s /\ wlist s' = wlist s /\ now s' = now s /\ t_hard s' = t_hard s.
@@ -224,6 +225,7 @@ Proof.
   unfold fresh; cbn. repeat split; try reflexivity; try (intros; discriminate).
   - destruct (n =? 0); lia.
   - intros Hc Hn. destruct (n =? 0) eqn:E; lia.
+  - intros Hn. destruct (n =? 0) eqn:E; lia.
 Qed.
 
 Lemma moves_do_imap s k n : k <> KApply -> k <> KMap -> moves s (fst (do_imap s k n)).
@@ -749,3 +751,404 @@ Example timed_out_was_due_witness :
      | None => False
      end.
 Proof. split; [repeat constructor; cbn; lia|]. vm_compute. repeat split. Qed.
+
+(* ================================================================ C01: map handles *)
+Definition any_dt (dt : Z) : Prop := True.
+Definition any_ack (w : list Z) (x : job) (p : Z) : Prop := True.
+
+Lemma any_ok s e : ev_ok any_dt any_ack s e.
+Proof. destruct e; cbn; unfold any_dt, any_ack; auto. Qed.
+
+Lemma any_hist_ok c tr : hist_ok any_dt any_ack c tr.
+Proof. intros tr1 e tr2 _. apply any_ok. Qed.
+
+Lemma run_from_moves : forall tr s, moves any_dt any_ack s (run_from s tr).
+Proof.
+  unfold run_from. induction tr as [|e tr IH]; intros s; cbn; [apply ms_refl|].
+  eapply moves_trans; [apply step_moves; apply any_ok|apply IH].
+Qed.
+
+Lemma run_app c tr tr' : run c (tr ++ tr') = run_from (run c tr) tr'.
+Proof. unfold run, run_from. apply fold_left_app. Qed.
+
+(* a per-job invariant that does not look at the rest of the state *)
+Lemma jobinv_move okdt okack (P : job -> Prop) :
+  (forall s x y, P x -> jmove okack s x y -> P y) ->
+  (forall x m, P x -> P (j_set_lost x m)) ->
+  (forall x, fresh x -> P x) ->
+  forall s s', move okdt okack s s' -> Forall P (jobs s) -> Forall P (jobs s').
+Proof.
+  intros Hj Hl Hf s s' Hm H.
+  destruct Hm as [_ Hjb|x _ Hjb Hfx|Hjb _ _ _ _|q Hjb _ _ _ _|dt _ Hjb _ _ _ _|_ _ _ _ Hjb].
+  - eapply Forall_Forall2; [exact Hjb|exact H|]. intros x y Hx [->|Hxy]; [exact Hx|eapply Hj; eauto].
+  - rewrite Hjb. apply Forall_app. split; [exact H|]. constructor; [apply Hf; exact Hfx|constructor].
+  - rewrite Hjb. exact H.
+  - rewrite Hjb. exact H.
+  - rewrite Hjb. exact H.
+  - eapply Forall_Forall2; [exact Hjb|exact H|]. intros x y Hx Hr.
+    destruct Hr as [_|c Hc Hr|p code _ _ _ _ _].
+    + exact Hx.
+    + eapply Hj; [exact Hx|]. apply (JSet okack s x None (PTerminated c)); [exact Hc|intros; discriminate].
+    + apply Hl. exact Hx.
+Qed.
+
+(* a reflexive, transitive relation between the versions of a job *)
+Lemma jobrel_moves okdt okack (R : job -> job -> Prop) :
+  (forall x, R x x) -> (forall x y z, R x y -> R y z -> R x z) ->
+  (forall s x y, jmove okack s x y -> R x y) ->
+  (forall x m, incache x = true -> R x (j_set_lost x m)) ->
+  forall s s', moves okdt okack s s' ->
+  forall n x, nth_error (jobs s) n = Some x -> exists y, nth_error (jobs s') n = Some y /\ R x y.
+Proof.
+  intros Hr Ht Hj Hl s s' Hms. induction Hms as [s|s s1 s2 Hm _ IH]; intros n x Hn; [eauto|].
+  assert (H1 : exists y, nth_error (jobs s1) n = Some y /\ R x y).
+  { destruct Hm as [_ Hjb|x0 _ Hjb _|Hjb _ _ _ _|q Hjb _ _ _ _|dt _ Hjb _ _ _ _|_ _ _ _ Hjb].
+    - destruct (Forall2_nth_l _ _ _ Hjb n x Hn) as (y & Hy & [->|Hxy]); eauto.
+    - exists x. split; [|apply Hr]. rewrite Hjb. rewrite nth_error_app1; [exact Hn|].
+      apply nth_error_Some. congruence.
+    - rewrite Hjb. eauto.
+    - rewrite Hjb. eauto.
+    - rewrite Hjb. eauto.
+    - destruct (Forall2_nth_l _ _ _ Hjb n x Hn) as (y & Hy & Hxy). exists y. split; [exact Hy|].
+      destruct Hxy as [_|c Hc Hrd|p code Hc _ _ _ _].
+      + apply Hr.
+      + apply (Hj s). apply (JSet okack s x None (PTerminated c)); [exact Hc|intros; discriminate].
+      + apply Hl. exact Hc. }
+  destruct H1 as (y & Hy & Hxy). destruct (IH n y Hy) as (z & Hz & Hyz). eauto.
+Qed.
+
+Lemma jmove_mlen okack s x y : jmove okack s x y -> mlen y = mlen x.
+Proof.
+  intros H. destruct H; try reflexivity.
+  - unfold job_set. destruct (kind x); cbn [fst].
+    + unfold apply_set. destruct (ready x); reflexivity.
+    + unfold map_set. destruct (payload_success p); [destruct (number_left x - 1 =? 0)|]; reflexivity.
+    + unfold imap_set.
+      destruct (if okey_eqb (Some (index x)) i
+                then drain (length (unsorted x)) (index x + 1) (unsorted x) (items x ++ [p])
+                else (index x, assoc_put i p (unsorted x), items x)) as [[idx uns] its].
+      destruct (okey_eqb (Some idx) (ilength x)); reflexivity.
+    + unfold imapu_set. destruct (okey_eqb (Some (index x + 1)) (ilength x)); reflexivity.
+  - unfold apply_set. destruct (ready x); reflexivity.
+  - unfold set_length. destruct (negb (is_imap x)); [reflexivity|].
+    destruct (okey_eqb (Some (index x)) (Some n)); reflexivity.
+Qed.
+
+(* the invariant of a map handle whose length is not negative *)
+Definition MapI (x : job) : Prop :=
+  kind x = KMap -> 0 <= mlen x ->
+  0 <= cb_succ x /\ 0 <= cb_err x /\ cb_succ x + cb_err x <= 1
+  /\ (ready x = false -> cb_succ x = 0 /\ cb_err x = 0 /\ value x = None)
+  /\ (ready x = true -> incache x = false)
+  /\ (incache x = true -> accepted x = true)
+  /\ (mlen x = 0 -> ready x = true /\ value x = None /\ cb_succ x = 0 /\ cb_err x = 0).
+
+Lemma MapI_jmove okack s x y : MapI x -> jmove okack s x y -> MapI y.
+Proof.
+  intros H Hm Hky Hly.
+  assert (Hk : kind x = KMap) by (rewrite <- (jm_kind _ _ (jmove_jmono _ _ _ _ Hm)); exact Hky).
+  assert (Hl : 0 <= mlen x) by (rewrite <- (jmove_mlen _ _ _ _ Hm); exact Hly).
+  destruct (H Hk Hl) as (A1 & A2 & A3 & A4 & A5 & A6 & A7). clear Hky Hly. destruct Hm.
+  - congruence.
+  - (* a chunk is acknowledged *)
+    cbn. repeat split; auto; try (apply A4; assumption); try (apply A7; assumption);
+      try (intros Hr; rewrite Hr; reflexivity);
+      try (intros Hc; destruct (ready x); [discriminate|auto]).
+  - unfold is_imap in *. rewrite Hk in *. discriminate.
+  - (* a chunk's result, or a failure: the job is in the cache, hence unresolved *)
+    assert (Hr : ready x = false) by (destruct (ready x); [rewrite A5 in H0 by reflexivity; discriminate|reflexivity]).
+    destruct (A4 Hr) as (B1 & B2 & B3). specialize (A6 H0).
+    assert (Hl0 : mlen x <> 0) by (intros E; destruct (A7 E); congruence).
+    unfold job_set. rewrite Hk. cbn [fst]. unfold map_set.
+    destruct (payload_success p); [destruct (number_left x - 1 =? 0)|]; cbn; rewrite ?A6, ?B1, ?B2;
+      repeat split; auto; try lia; try (intros; congruence); try (intros; exfalso; lia).
+  - congruence.
+  - exact (conj A1 (conj A2 (conj A3 (conj A4 (conj A5 (conj A6 A7)))))).
+  - cbn. repeat split; auto; try (apply A4; assumption); try (apply A7; assumption). intros; discriminate.
+  - unfold set_length, is_imap. rewrite Hk. cbn. exact (conj A1 (conj A2 (conj A3 (conj A4 (conj A5 (conj A6 A7)))))).
+  - unfold is_imap in *. rewrite Hk in *. discriminate.
+Qed.
+
+Lemma MapI_fresh x : fresh x -> MapI x.
+Proof.
+  intros (Hv & _ & Hs & He & _ & _ & _ & Hm) Hk Hl. destruct (Hm Hk) as (M1 & M2 & M3).
+  rewrite Hs, He. repeat split; auto; try lia;
+    try (intros Hr; rewrite M1, Hr; reflexivity); try (intros Hc; apply M2; assumption).
+Qed.
+
+Theorem MapI_reachable c tr : Forall MapI (jobs (run c tr)).
+Proof.
+  apply (run_inv any_dt any_ack (fun s => Forall MapI (jobs s))).
+  - apply jobinv_move.
+    + intros s x y. apply MapI_jmove.
+    + intros x m H. exact H.
+    + apply MapI_fresh.
+  - rewrite jobs_init. constructor.
+  - apply any_hist_ok.
+Qed.
+
+(* C01 for map handles, all histories: at most one of the two callbacks, at most once;
+   none before the handle is resolved; a resolved handle has left the cache *)
+Theorem map_callbacks_at_most_once c tr j x :
+  get_job (run c tr) j = Some x -> kind x = KMap -> 0 <= mlen x ->
+  0 <= cb_succ x /\ 0 <= cb_err x /\ cb_succ x + cb_err x <= 1
+  /\ (ready x = false -> cb_succ x = 0 /\ cb_err x = 0 /\ value x = None)
+  /\ (ready x = true -> incache x = false).
+Proof.
+  intros Hg Hk Hl. pose proof (MapI_reachable c tr) as H. rewrite Forall_forall in H.
+  destruct (H x (get_job_In _ _ _ Hg) Hk Hl) as (A1 & A2 & A3 & A4 & A5 & _). auto.
+Qed.
+
+(* the empty map: resolved from the start with no failure, and no callback ever runs *)
+Theorem empty_map c tr j x :
+  get_job (run c tr) j = Some x -> kind x = KMap -> mlen x = 0 ->
+  ready x = true /\ incache x = false /\ value x = None /\ cb_succ x = 0 /\ cb_err x = 0.
+Proof.
+  intros Hg Hk Hl. pose proof (MapI_reachable c tr) as H. rewrite Forall_forall in H.
+  destruct (H x (get_job_In _ _ _ Hg) Hk) as (_ & _ & _ & _ & A5 & _ & A7); [lia|].
+  destruct (A7 Hl) as (B1 & B2 & B3 & B4). auto.
+Qed.
+
+(* what can never change again once a map handle is resolved and out of the cache *)
+Definition mstab (x y : job) : Prop :=
+  kind x = KMap -> ready x = true -> incache x = false ->
+  kind y = KMap /\ ready y = true /\ incache y = false
+  /\ value y = value x /\ cb_succ y = cb_succ x /\ cb_err y = cb_err x.
+
+Lemma mstab_jmove okack s x y : jmove okack s x y -> mstab x y.
+Proof.
+  intros Hm Hk Hr Hc. destruct Hm; try congruence.
+  - unfold is_imap in *. rewrite Hk in *. discriminate.
+  - cbn. repeat split; auto.
+  - cbn. repeat split; auto.
+  - unfold set_length, is_imap. rewrite Hk. cbn. repeat split; auto.
+  - unfold is_imap in *. rewrite Hk in *. discriminate.
+Qed.
+
+Theorem map_outcome_stable c tr tr' j x :
+  get_job (run c tr) j = Some x -> kind x = KMap -> 0 <= mlen x -> ready x = true ->
+  exists y, get_job (run c (tr ++ tr')) j = Some y /\ kind y = KMap /\ ready y = true
+            /\ value y = value x /\ cb_succ y = cb_succ x /\ cb_err y = cb_err x.
+Proof.
+  intros Hg Hk Hl Hr.
+  destruct (map_callbacks_at_most_once c tr j x Hg Hk Hl) as (_ & _ & _ & _ & Hc). specialize (Hc Hr).
+  destruct (get_job_nth _ _ _ Hg) as [Hj Hn].
+  destruct (jobrel_moves any_dt any_ack mstab) with (s := run c tr) (s' := run c (tr ++ tr')) (n := Z.to_nat j) (x := x)
+    as (y & Hy & Hxy).
+  - intros z K R C. repeat split; auto.
+  - intros a b d Hab Hbd K R C. destruct (Hab K R C) as (K1 & R1 & C1 & V1 & S1 & E1).
+    destruct (Hbd K1 R1 C1) as (K2 & R2 & C2 & V2 & S2 & E2). repeat split; congruence.
+  - intros s a b. apply mstab_jmove.
+  - intros a m Ha _ _ Hc'. congruence.
+  - rewrite run_app. apply run_from_moves.
+  - exact Hn.
+  - destruct (Hxy Hk Hr Hc) as (K1 & R1 & C1 & V1 & S1 & E1).
+    exists y. unfold get_job. replace (j <? 0) with false by lia. repeat split; auto.
+Qed.
+
+(* ---- the length hypothesis is needed: the model (like the code) accepts a NEGATIVE length,
+   and such a handle stays in the cache after it failed, so it is failed again *)
+Definition hneg_cfg := mkcfg 2 None None None None 1 false false.
+Definition hneg_tr := [EMap (-1) 1; EReady 0 None false 7].
+
+Theorem map_negative_length_refuted :
+  exists c tr tr' j x y,
+    get_job (run c tr) j = Some x /\ kind x = KMap /\ ready x = true /\ incache x = true
+    /\ get_job (run c (tr ++ tr')) j = Some y
+    /\ value x = Some (PExc 7) /\ value y = Some (PExc 8) /\ cb_err x = 1 /\ cb_err y = 2.
+Proof.
+  exists hneg_cfg, hneg_tr, [EReady 0 None false 8].
+  exists 0, (nth 0 (jobs (run hneg_cfg hneg_tr)) (new_job (init hneg_cfg) KMap)),
+         (nth 0 (jobs (run hneg_cfg (hneg_tr ++ [EReady 0 None false 8]))) (new_job (init hneg_cfg) KMap)).
+  vm_compute. repeat split.
+Qed.
+
+Definition hmap_tr : list event :=
+  [EMap 2 1; EFeed None false; EAck 0 (Some 0) 0; EReady 0 (Some 0) true 5;
+   EAck 0 (Some 1) 1; EReady 0 (Some 1) true 6].
+
+Example map_resolved_witness :
+  match get_job (run hneg_cfg hmap_tr) 0 with
+  | Some x => kind x = KMap /\ mlen x = 2 /\ ready x = true /\ incache x = false
+              /\ value x = None /\ cb_succ x = 1 /\ cb_err x = 0
+  | None => False
+  end
+  /\ match get_job (run hneg_cfg [EMap 2 1; EFeed None false; EReady 0 (Some 0) false 9]) 0 with
+     | Some x => kind x = KMap /\ ready x = true /\ value x = Some (PExc 9) /\ cb_succ x = 0 /\ cb_err x = 1
+     | None => False
+     end
+  /\ match get_job (run hneg_cfg [EMap 0 1]) 0 with
+     | Some x => kind x = KMap /\ mlen x = 0 /\ ready x = true
+     | None => False
+     end.
+Proof. vm_compute. repeat split. Qed.
+
+(* ================================================================ C04: conversely *)
+(* well-formed acknowledgements: the pid named by an ACK is in the pool list when the
+   message is handled ... *)
+Definition acks_from_pool (c : config) (tr : list event) : Prop :=
+  forall tr1 j i p tr2, tr = tr1 ++ EAck j i p :: tr2 -> in_pool (run c tr1) p = true.
+(* ... and (optionally) an Apply job is acknowledged at most once: it has no owner yet *)
+Definition acks_once (c : config) (tr : list event) : Prop :=
+  forall tr1 j i p tr2 x, tr = tr1 ++ EAck j i p :: tr2 ->
+                          get_job (run c tr1) j = Some x -> kind x = KApply -> wp x = [].
+
+(* worker p has left the pool list and the process table records that it exited with st *)
+Definition gone (s : pool) (p st : Z) : Prop :=
+  in_pool s p = false /\ exited s p = true /\ exit_of s p = st.
+
+Lemma pmono_app l q : pmono l (l ++ [q]).
+Proof.
+  intros n a Hn. exists a. split; [|auto]. rewrite nth_error_app1; [exact Hn|].
+  apply nth_error_Some. congruence.
+Qed.
+
+(* pids are fresh and exit statuses are written once: a worker that is gone stays gone, with
+   the same status, as long as the pool list only gains pids that have not exited *)
+Lemma gone_stable s s' p st :
+  (forall q, In q (wlist s') -> In q (wlist s) \/ exited s q = false) ->
+  pmono (procs s) (procs s') -> gone s p st -> gone s' p st.
+Proof.
+  intros Hw Hp (G1 & G2 & G3). unfold gone, in_pool, exited, exit_of, get_proc in *.
+  split; [|].
+  - destruct (memZ p (wlist s')) eqn:E; [|reflexivity]. exfalso. apply memZ_In in E.
+    destruct (Hw p E) as [H|H].
+    + apply memZ_In in H. congruence.
+    + unfold exited, get_proc in H. congruence.
+  - destruct (p <? 0); [discriminate|].
+    destruct (nth_error (procs s) (Z.to_nat p)) as [q|] eqn:Eq; [|discriminate].
+    destruct (Hp _ _ Eq) as (q' & Hq' & Hc). rewrite Hq'.
+    destruct (pexit q) as [c0|]; [|discriminate]. rewrite (Hc c0 eq_refl). auto.
+Qed.
+
+Lemma exited_lt s p : exited s p = true -> p <> Z.of_nat (length (procs s)).
+Proof.
+  unfold exited, get_proc. intros H E. destruct (p <? 0); [discriminate|].
+  destruct (nth_error (procs s) (Z.to_nat p)) eqn:En; [|discriminate].
+  assert (Hlt : (Z.to_nat p < length (procs s))%nat) by (apply nth_error_Some; congruence). lia.
+Qed.
+
+Lemma gone_move okdt okack s s' p st : move okdt okack s s' -> gone s p st -> gone s' p st.
+Proof.
+  intros Hm. destruct Hm as [(Hp & Hw & _ & _) _|x (Hp & Hw & _ & _) _ _|_ Hw _ _ Hp|q _ _ _ Hp Hw|dt _ _ Hp Hw _ _|Hp _ _ Hw _];
+    apply gone_stable.
+  - rewrite Hw. auto.
+  - rewrite Hp. apply pmono_refl.
+  - rewrite Hw. auto.
+  - rewrite Hp. apply pmono_refl.
+  - rewrite Hw. auto.
+  - exact Hp.
+  - rewrite Hw. intros a Ha. apply in_app_or in Ha. destruct Ha as [Ha|[<-|[]]]; [auto|].
+    right. destruct (exited s (Z.of_nat (length (procs s)))) eqn:E; [|reflexivity].
+    exfalso. exact (exited_lt _ _ E eq_refl).
+  - rewrite Hp. apply pmono_app.
+  - rewrite Hw. auto.
+  - rewrite Hp. apply pmono_refl.
+  - rewrite Hw. intros a Ha. apply filter_In in Ha. tauto.
+  - rewrite Hp. apply pmono_refl.
+Qed.
+
+(* all histories: once a worker is gone it never comes back, and its recorded status
+   never changes *)
+Theorem exited_worker_stays_gone c tr tr' p st :
+  gone (run c tr) p st -> gone (run c (tr ++ tr')) p st.
+Proof.
+  rewrite run_app. generalize (run_from_moves tr' (run c tr)). generalize (run_from (run c tr) tr').
+  generalize (run c tr). intros s s' Hms. induction Hms; intros G; [exact G|].
+  apply IHHms. eapply gone_move; eauto.
+Qed.
+
+Section Lost.
+(* S1 = "acknowledgements come at most once per Apply job" is assumed as well *)
+Variable S1 : Prop.
+
+Definition ackok (w : list Z) (x : job) (p : Z) : Prop := memZ p w = true /\ (S1 -> wp x = []).
+
+Definition Wj (s : pool) (x : job) : Prop :=
+  kind x = KApply ->
+  (* an unresolved cached job without a marker: its owner is in the pool list *)
+  (incache x = true -> ready x = false -> worker_lost x = None ->
+   forall p, In p (wp x) -> In p (wlist s))
+  (* a marker carries the status of a worker that is gone *)
+  /\ (forall t st, worker_lost x = Some (t, st) -> exists p, gone s p st /\ (S1 -> In p (wp x))).
+
+Definition W (s : pool) : Prop := Forall (Wj s) (jobs s).
+
+Lemma Wj_env s s' x :
+  (forall p, In p (wlist s) -> In p (wlist s')) -> (forall p st, gone s p st -> gone s' p st) ->
+  Wj s x -> Wj s' x.
+Proof.
+  intros Hw Hg H Hk. destruct (H Hk) as [A B]. split.
+  - intros Hc Hr Hl p Hp. apply Hw. apply A; assumption.
+  - intros t st Hl. destruct (B t st Hl) as (p & G & Hp). exists p. split; [apply Hg; exact G|exact Hp].
+Qed.
+
+Lemma Wj_jmove s x y : Wj s x -> jmove ackok s x y -> Wj s y.
+Proof.
+  intros H Hm Hky.
+  assert (Hk : kind x = KApply) by (rewrite <- (jm_kind _ _ (jmove_jmono _ _ _ _ Hm)); exact Hky).
+  destruct (H Hk) as [A B]. clear Hky. destruct Hm.
+  - (* acknowledged by a pid of the pool list *)
+    destruct H2 as [Hin Hone]. cbn. split.
+    + intros _ _ _ q [<-|[]]. apply memZ_In. exact Hin.
+    + intros t st Hl. destruct (B t st Hl) as (q & G & Hq). exists q. split; [exact G|].
+      intros Hs. specialize (Hq Hs). rewrite (Hone Hs) in Hq. destruct Hq.
+  - congruence.
+  - unfold is_imap in *. rewrite Hk in *. discriminate.
+  - unfold job_set. rewrite Hk. cbn [fst]. unfold apply_set.
+    destruct (ready x) eqn:Hr; [split; [intros; congruence|exact B]|]. cbn. split; [intros; discriminate|exact B].
+  - unfold apply_set. rewrite H1. cbn. split; [intros; discriminate|exact B].
+  - exact (conj A B).
+  - cbn. split; [intros; discriminate|exact B].
+  - unfold set_length, is_imap. rewrite Hk. cbn. split; assumption.
+  - unfold is_imap in *. rewrite Hk in *. discriminate.
+Qed.
+
+Lemma Wj_fresh s x : fresh x -> Wj s x.
+Proof.
+  intros (_ & Hl & _ & _ & _ & Hw & _) _. split.
+  - intros _ _ _ p Hp. rewrite Hw in Hp. destruct Hp.
+  - intros t st H. congruence.
+Qed.
+
+Lemma W_move okdt s s' : move okdt ackok s s' -> W s -> W s'.
+Proof.
+  unfold W. intros Hm H. pose proof (fun p st => gone_move _ _ _ _ p st Hm) as Hg.
+  destruct Hm as [He Hj|x He Hj Hf|Hj Hw _ _ _|q Hj _ _ _ Hw|dt _ Hj _ Hw _ _|Hp Hn _ Hw Hj].
+  - destruct He as (_ & Hw & _ & _).
+    assert (H1 : Forall (Wj s) (jobs s')).
+    { eapply Forall_Forall2; [exact Hj|exact H|]. intros x y Hx [->|Hxy]; [exact Hx|].
+      eapply Wj_jmove; eauto. }
+    eapply Forall_impl; [|exact H1]. intros x. apply Wj_env; [rewrite Hw; auto|exact Hg].
+  - destruct He as (_ & Hw & _ & _). rewrite Hj. apply Forall_app. split.
+    + eapply Forall_impl; [|exact H]. intros y. apply Wj_env; [rewrite Hw; auto|exact Hg].
+    + constructor; [apply Wj_fresh; exact Hf|constructor].
+  - rewrite Hj. eapply Forall_impl; [|exact H]. intros y. apply Wj_env; [rewrite Hw; auto|exact Hg].
+  - rewrite Hj. eapply Forall_impl; [|exact H]. intros y. apply Wj_env; [|exact Hg].
+    rewrite Hw. intros p Hp. apply in_or_app. left. exact Hp.
+  - rewrite Hj. eapply Forall_impl; [|exact H]. intros y. apply Wj_env; [rewrite Hw; auto|exact Hg].
+  - (* the reaping pass *)
+    eapply Forall_Forall2; [exact Hj|exact H|]. intros x y Hx Hr Hky.
+    destruct Hr as [F|c Hc Hr|p code Hc Hr Hl Hp Halt].
+    + destruct (Hx Hky) as [A B]. split.
+      * intros Hc Hr Hl p Hp. apply F; auto; [unfold worker_pids; rewrite Hky; exact Hp|].
+        apply A; assumption.
+      * intros t st Hl. destruct (B t st Hl) as (p & G & Hp). exists p. split; [apply Hg; exact G|exact Hp].
+    + assert (Hk : kind x = KApply).
+      { rewrite <- (jm_kind _ _ (job_set_mono x None (PTerminated c))). exact Hky. }
+      destruct (Hx Hk) as [A B]. unfold job_set. rewrite Hk. cbn [fst]. unfold apply_set. rewrite Hr. cbn.
+      split; [intros; discriminate|].
+      intros t st Hl. destruct (B t st Hl) as (p & G & Hp). exists p. split; [apply Hg; exact G|exact Hp].
+    + cbn in Hky. destruct (Hx Hky) as [A B]. cbn. split; [intros; discriminate|].
+      intros t st E. inversion E; subst t st. clear E.
+      unfold worker_pids in Hp. rewrite Hky in Hp.
+      pose proof (A Hc Hr Hl p Hp) as Hin.
+      destruct Halt as [(_ & Hex & Hcode)|(Hnot & _)]; [|contradiction].
+      exists p. split; [|intros _; exact Hp].
+      unfold gone, in_pool, exited, exit_of, get_proc in *. rewrite Hp0, Hw. clear Hg. split; [|auto].
+      destruct (memZ p (filter (fun p0 => negb (exited s p0)) (wlist s))) eqn:E; [|reflexivity].
+      exfalso. apply memZ_In in E. apply filter_In in E. destruct E as [_ E].
+      unfold exited, get_proc in E. rewrite Hex in E. discriminate.
+Qed.
+
+End Lost.
